@@ -5,6 +5,12 @@ V = os.path.dirname(os.path.dirname(os.path.abspath(__file__)))
 TECH = "contract-based deductive verification: CBMC 6.11 function/loop contracts (goto-instrument --dfcc enforce/replace) on the injected real sources"
 
 CLAIMS = {
+ 'C01': dict(cat='other', ref='DESIGN.md §10',
+   text='mixed: contract proofs for wr_data (block write/omission) and jls_buf_realloc; BOUNDED stand-ins (CBMC, unwinding assertions, real functions) for the sample packer jls_wr_fsr_data/wr_data_inner (any packer state, one write at any relative position, blocks of 2-4 bytes), the read window jls_core_fsr (signals of up to 3 blocks, every first sample id, every window, sub-byte unaligned starts, windows ending at the last sample) and the block lookup jls_core_fsr_seek (3 index levels); one arbitrary stored/returned sample compared bit for bit, lengths and block tiling checked',
+   note='bounded units are labelled bounded in the evidence and are not proofs; block cache / omitted-block reconstruction / fsr_length are models in the read unit; composition writer->file->reader is argued, not machine-checked; known finding F23 (signals shorter than one summary entry are unreadable) is reported by the variant unit B-core-fsrseek-F23; defects F17 F32 found by these units and fixed'),
+ 'C09': dict(cat='other', ref='DESIGN.md §10',
+   text='BOUNDED stand-in: the real jls_wr_fsr_data / wr_data_inner / wr_data on an arbitrary packer state with one write starting anywhere from one block before to one block after the next expected id (gap, contiguous, partial/total overlap, sub-byte unaligned): signal length = last id + 1 - first id, stored blocks tile the signal, accepted samples survive, new samples bit-exact, skipped samples are 0 (integer) / NaN (float, thorough tier)',
+   note='not a proof: blocks of 2-4 bytes, 4-word scratch buffer (hook), gaps up to one block + 1 sample; gaps larger than the scratch buffer and the isfinite filter of the summaries are not covered; the contract units for jls_wr_fsr_data (U-fsr-gapdup-*) do not finish (attic); defects F2 F3 F30 F32 on this path fixed'),
  'C04': dict(cat='proof', ref='DESIGN.md §6 C04',
    text='every accept path of the raw layer (jls_raw_rd_header, jls_raw_rd_payload) is proved to return success only after the stored CRC was compared with the CRC recomputed over exactly the 28 header bytes / payload_length payload bytes; no header field is exposed on failure; with C18 the compared function is CRC-32C',
    note='assumed: A-CRC-HD (CRC-32C detects <=3 flipped bits / one burst <=32 bits at these lengths: property of the polynomial), A-FS file model, header payload_length <= 0xfffffff0; reader layers above raw (caches in core.c) are covered only by their own units listed in the evidence'),
@@ -50,10 +56,8 @@ CLAIMS = {
 }
 
 NOT_APPLICABLE = {
- 'C01': 'not decided in this round: the packing unit (wr_data_inner) and the read unit (jls_core_fsr) are not finished; jls_core_rd_chunk is a thorough-tier unit that does not finish in time; seven genuine defects on this path were found and repaired (F4 F24 F25 F2 F3 F6 F6b) and F23 is recorded as a known finding in known_findings.json',
  'C03': 'crash-point enumeration and functional correctness of the repair functions cannot be expressed as contracts (unbounded on-disk list structure, every interrupted history); the decidable parts (link-after-chunk: U-core-upditem precondition, END-last control shape: U-rd-open-shape) are reported under C14/C19',
  'C06': 'the schedule quantifier is outside contract reasoning; the sequential premises (marshalling round trip through the real queue and dispatch loop, lockset discipline) are built as bounded units (specs/twr) but exceed the memory limit in this round, so they are not claimed',
- 'C09': 'the unit for jls_wr_fsr_data (recording contract for wr_data_inner, four loop contracts, per-type variants, specs/wrfsr) does not finish within the time limit on CBMC 6.11 even with the 16-word scratch buffer hook; the defects F2/F3 on this path were found and repaired through native reproduction; not claimed rather than decided by another technique',
  'C17': 'no unit: jls_copy is a single 150-line loop over callee results; a forwarding unit needs models of ten callees and was not reached in this round; the plan and the known gaps (omitted blocks not re-created, chunks within 11 bytes below the buffer size skipped, leaks on error paths) are in DESIGN.md',
  'C07': 'liveness/deadlock/flush-close semantics under every schedule: CBMC contracts have no interleaving or fairness semantics; the sequential facts are reported under C06/C10 where built',
 }
